@@ -381,6 +381,34 @@ class Body:
             if t["k"] == "call":
                 yield bi, t, callee(t)
 
+    def fn_refs(self):
+        """Yield (bb, path) for every fn item used as a *value* (passed as an argument or stored), i.e. not in
+        callee position: `opt.map_or(true, RcInner::try_increment_strong)`, `helper(Atomic::compare_exchange)`."""
+        if hasattr(self, "_fn_refs"):
+            return self._fn_refs
+        out = []
+
+        def walk(x, bi):
+            if isinstance(x, dict):
+                if "fn" in x and isinstance(x.get("fn"), str):
+                    out.append((bi, x.get("resolved") or x["fn"]))
+                    return
+                for v in x.values():
+                    walk(v, bi)
+            elif isinstance(x, list):
+                for v in x:
+                    walk(v, bi)
+        reach = self.reachable()
+        for bi in sorted(reach):
+            blk = self.blocks[bi]
+            for s in blk["stmts"]:
+                walk(s, bi)
+            tm = blk["term"]
+            if tm["k"] == "call":
+                walk(tm["args"], bi)
+        self._fn_refs = out
+        return out
+
     # ---- pretty printer
     def pretty(self):
         out = ["fn %s  [%s]  args=%d" % (self.name, self.kind, self.arg_count)]
@@ -474,6 +502,34 @@ def callee(t):
     return Callee(t)
 
 
+class RefCallee:
+    """stands for a use of a fn item as a value (the function is called by whoever receives it)"""
+    is_ref = True
+    is_ptr = False
+    trait = None
+    local = True
+    resolved_kind = "item"
+
+    def __init__(self, target):
+        self.name = self.full = self.resolved = self.display = target
+        self.args = []
+        self.resolved_args = []
+        self.raw = None
+
+    @property
+    def target(self):
+        return self.name
+
+    def closure_args(self):
+        return []
+
+    def const_args(self):
+        return []
+
+    def type_args(self):
+        return []
+
+
 class Program:
     def __init__(self, facts):
         self.facts = facts
@@ -504,6 +560,9 @@ class Program:
             for bi, t, c in b.calls():
                 if c.target in self.bodies:
                     sites.setdefault(c.target, []).append(b.name)
+            for bi, path in b.fn_refs():
+                if path in self.bodies:
+                    sites.setdefault(path, []).append(b.name)
         out = {}
         for name, b in self.bodies.items():
             if b.kind == "closure" or name in base:
@@ -536,12 +595,36 @@ class Program:
             for bi, t, c in b.calls():
                 if c.target == name:
                     sites.add(b.name)
+            for bi, path in b.fn_refs():
+                if path == name:
+                    sites.add(b.name)
         out = []
         for s in sorted(sites):
             for r in self.roots_of(s):
                 if r not in out:
                     out.append(r)
         return out or [name]
+
+    def path_roots(self, name):
+        """Functions whose path enumeration contains the code of body `name`: a closure is read inside its root
+        function, a helper introduced by refactoring inside each non-helper function that reaches it."""
+        b = self.bodies.get(name)
+        seen = set()
+        while b is not None and b.kind == "closure" and b.name not in seen:
+            seen.add(b.name)
+            b = self.bodies.get(b.j.get("root"))
+        if b is None:
+            return [name]
+        out = []
+        for r in self.roots_of(b.name):
+            rb = self.bodies.get(r)
+            if rb is not None and rb.kind == "closure":
+                for x in self.path_roots(r):
+                    if x not in out:
+                        out.append(x)
+            elif r not in out:
+                out.append(r)
+        return out
 
     def home(self, name):
         """The function a body belongs to for who-may-call purposes: closures -> their root function; helpers
@@ -587,4 +670,7 @@ class Program:
             for bi, t, c in b.calls():
                 if c.target == target:
                     out.append((b, bi, t, c))
+            for bi, path in b.fn_refs():
+                if path == target:
+                    out.append((b, bi, b.blocks[bi]["term"], RefCallee(target)))
         return out
